@@ -23,6 +23,8 @@ P = {
          "partial: shapes are tested, tables proved; keyword spelling judged against maps executed from the built crate."),
  "C07": ("Theorem C07_hex_string_decoding (no axioms, all inputs): the hex-string decoder accepts exactly bodies that, commas removed, are an even number of hex digits and returns the byte values of the pairs (Latin-1). Partition of the literal buffer by the payload ranges and payload = unquoted token text are tested on every token of every input by an independent unquoting oracle, with a dedicated escape-placement stream.",
          "partial: content/partition tested, decoder proved."),
+ "C08": ("Theorems (all inputs; axioms: the four real-number axioms of Coq's standard library, through Reals/Flocq): decimal and hexadecimal integer readings are the positional value of the maximal digit prefix, exact when it fits 64 bits (no axioms); round_b64 num den is the IEEE-754 binary64 nearest-ties-to-even of num/den, stated against Flocq's round radix2 (FLT_exp (-1074) 53) ZnearestE with overflow to the infinity pattern, and the bit patterns are read as Flocq's b64_of_bits reads them; for every literal spelled digits[.digits][(e|E)[+|-]digits] try_parse_float consumes exactly the literal, types it by its notation and returns the correctly rounded double of its decimal value. Every numeric token of every input (incl. a dedicated stream of boundary, halfway, subnormal, overflow and hex spellings in open code and macro expression contexts) is judged by an independent oracle (exact integers, Python float()).",
+         "partial: notation disambiguation in lex_numeric_literal, macro-expression contexts and the extent of malformed literals are tested, not proved; lexical::parse_partial is modelled and compared with the crate on every input (exponents with more than 6 significant digits saturate in model and crate alike and are outside the float theorem)."),
  "C09": ("Theorem C09_error_offsets (no axioms, unconditional): every error offset is a prefix position within the text with the matching character offset. last_token anchoring, source order and the missing-symbol/virtual-token pairing are tested by the oracle and monitored in the model run (no error survives a rollback).",
          "partial."),
  "C10": ("Theorems (by computation): every argument-taking built-in pre-loads 'skip ws/comments, expect ( on its channel' on top and 'expect )' at the bottom; every macro keyword has a dispatch arm; ';'-terminated statements pre-load the ';' expectation. Balance of string expressions, datalines triples, label colons over all inputs (incl. every truncation of a sample program) is tested by the oracle.",
